@@ -338,3 +338,57 @@ pub fn random_map(rng: &mut Rng, cfg: &GenCfg) -> MapSpec {
     }
     m
 }
+
+/// A byte-level variant of a rendered `.osu` text: CRLF line ends, a UTF-8 BOM, junk / malformed lines
+/// sprinkled into `[HitObjects]`, two object lines swapped (the decoder sorts), a hold-note line
+/// (foreign kind: a spinner for osu! / catch), rarely UTF-16LE.
+pub fn file_variant(rng: &mut Rng, text: &str) -> Vec<u8> {
+    let mut head: Vec<String> = Vec::new();
+    let mut objs: Vec<String> = Vec::new();
+    let mut in_objs = false;
+    for l in text.lines() {
+        if in_objs {
+            if !l.trim().is_empty() {
+                objs.push(l.to_owned());
+            }
+        } else {
+            head.push(l.to_owned());
+            if l.trim() == "[HitObjects]" {
+                in_objs = true;
+            }
+        }
+    }
+    if rng.chance(1, 5) && objs.len() > 2 {
+        let i = rng.below(objs.len() as u64) as usize;
+        let j = rng.below(objs.len() as u64) as usize;
+        objs.swap(i, j);
+    }
+    if rng.chance(1, 6) && in_objs {
+        let t = rng.range(0, 6000);
+        let k = rng.below(objs.len() as u64 + 1) as usize;
+        objs.insert(k, format!("{},{},{t},128,0,{}:0:0:0:0:", rng.range(0, 512), rng.range(0, 384), t + *rng.pick(&[0, 120, 900])));
+    }
+    if rng.chance(1, 3) && in_objs {
+        for _ in 0..rng.range(1, 3) {
+            let k = rng.below(objs.len() as u64 + 1) as usize;
+            objs.insert(k, (*rng.pick(&["", "// comment", "garbage", "1,2", "256,192,abc,1,0", "256,192,1e400,1,0", "256,192,100,64,0", "99999999,192,100,1,0", "256,192,500,2,0,B|1:2,x,100"])).to_owned());
+        }
+    }
+    let eol = if rng.chance(1, 4) { "\r\n" } else { "\n" };
+    let mut s = String::new();
+    if rng.chance(1, 12) {
+        s.push('\u{feff}');
+    }
+    for l in head.iter().chain(objs.iter()) {
+        s.push_str(l);
+        s.push_str(eol);
+    }
+    if rng.chance(1, 30) {
+        let mut bytes = vec![0xFF, 0xFE];
+        for u in s.encode_utf16() {
+            bytes.extend_from_slice(&u.to_le_bytes());
+        }
+        return bytes;
+    }
+    s.into_bytes()
+}
